@@ -237,6 +237,75 @@ def segy_axes(ctx, rng, k):
         ctx.fail(f'export failed: {type(ex).__name__}: {str(ex)[:120]}', desc)
 
 
+def z_crop_axes(ctx, rng):
+    """the sample axis after cropping along z: for sample intervals that are not whole milliseconds the start of a crop is
+    `start + k·interval` with k a multiple of the block depth — every such k is tried (layouts with 4-sample blocks), the
+    axis of the cropped file must be the source's restricted, to 1e-6 ms"""
+    from fractions import Fraction
+    from .. import synth
+    from seismic_zfp.cropping import SgzCropper
+    combos = [(-100, 4350), (0, 1001), (7, 333), (-2000, 1333), (250, 2500), (0, 4000), (-100, 500), (13, 4999)]
+    n2 = 404
+    for ci, (start, dt) in enumerate(combos if not ctx.quick else combos[:5]):
+        src = ctx.path('zc.sgz')
+        fi = synth.make(src, (3, 3, n2), (64, 64, 4), 8, rng, z=(start, dt), il=(5, 1), xl=(9, 2), n_arrays=2)
+        ks = list(range(4, n2 - 3, 4))
+        if ctx.quick:
+            ks = sorted(set([4, 100, 200, 300, n2 - 4] + [int(v) for v in rng.choice(ks, size=min(ctx.n(30, 100), len(ks)), replace=False)]))
+        with SgzCropper(src) as cr:
+            for k in ks:
+                out = ctx.path('zc_out.sgz')
+                if os.path.exists(out):
+                    os.unlink(out)
+                desc = {'start_ms': start, 'interval_us': dt, 'crop_z': (k, n2), 'layout': (64, 64, 4)}
+                ctx.case(('zcrop', start, dt, k), sample=desc if k == ks[0] and ci < 2 else None)
+                ctx.stats['z_crops'] += 1
+                try:
+                    env.quiet(cr.write_cropped_file_by_indexes, out, None, None, (k, n2))
+                    with SgzReader(out) as r:
+                        got = np.asarray(r.zslices, dtype=np.float64)
+                except Exception as e:  # noqa
+                    ctx.fail(f'z-crop failed: {type(e).__name__}: {str(e)[:100]}', desc)
+                    break
+                want = np.array([float(Fraction(start) + Fraction((k + j) * dt, 1000)) for j in range(n2 - k)])
+                if got.shape != want.shape or np.abs(got - want).max() > 1e-6:
+                    j = int(np.argmax(np.abs(got - want))) if got.shape == want.shape else 0
+                    ctx.fail(f'sample axis after a crop at sample {k}: {got[:2].tolist()}.. (len {len(got)}) is not the '
+                             f"source's axis restricted ({want[:2].tolist()}.., len {len(want)}); first/largest deviation at {j}",
+                             desc)
+                    break
+
+
+def z_crop_export(ctx, rng):
+    """SEG-Y -> SGZ (every header-detection mode) -> crop along z from a later sample -> SEG-Y: segyio must see the sample
+    axis of the source restricted to the crop (the start time is regenerated from the cropped file, whatever the footer holds)"""
+    for ci, mode in enumerate(['exhaustive', 'thorough', 'heuristic']):
+        n = (5, 6, 48)
+        t0, dt = int(rng.choice([0, 100, -48])), int(rng.choice([2000, 4000, 1000]))
+        sgy, sgz, crp, exp = ctx.path('ze.sgy'), ctx.path('ze.sgz'), ctx.path('ze_c.sgz'), ctx.path('ze_x.sgy')
+        mksegy.make_segy(sgy, gen.cube(rng, n), ilines=[3 + i for i in range(n[0])], xlines=[20 + 2 * j for j in range(n[1])], fmt=5,
+                         t0=t0, dt_us=dt, headers=mksegy.header_plan(rng, n_fields=2))
+        k = 4 * int(rng.integers(1, 8))
+        desc = {'mode': mode, 't0_ms': t0, 'interval_us': dt, 'crop_z': (k, n[2]), 'layout': (64, 64, 4)}
+        ctx.case(('zcrop-export', mode, t0, dt, k), sample=desc if ci == 0 else None)
+        ctx.stats['z_crop_exports'] += 1
+        try:
+            conv.segy_to_sgz(sgy, sgz, 8, (64, 64, 4), header_detection=mode)
+            with SgzCropper(sgz) as cr:
+                env.quiet(cr.write_cropped_file_by_indexes, crp, None, None, (k, n[2]))
+            with SgzConverter(crp) as cv:
+                env.quiet(cv.convert_to_segy, exp)
+            with segyio.open(exp) as f:
+                got = np.asarray(f.samples, dtype=np.float64)
+        except Exception as e:  # noqa
+            ctx.fail(f'convert / z-crop / export failed: {type(e).__name__}: {str(e)[:100]}', desc)
+            continue
+        want = np.array([t0 + (k + j) * dt / 1000 for j in range(n[2] - k)])
+        if got.shape != want.shape or np.abs(got - want).max() > 1e-6:
+            ctx.fail(f'exported z-cropped file: segyio sees samples {got[:2].tolist()}.. (len {len(got)}), the crop holds '
+                     f'{want[:2].tolist()}.. (len {len(want)})', desc)
+
+
 def run(ctx):
     MODEL['m'] = core.Model()
     try:
@@ -252,6 +321,8 @@ def run_(ctx):
     for k in range(ctx.n(30, 600)):
         segy_axes(ctx, rng, k)
     interval_sweep(ctx, rng)
+    z_crop_axes(ctx, gen.rng_for(ctx.seed, 'c05-zcrop'))
+    z_crop_export(ctx, gen.rng_for(ctx.seed, 'c05-zcrop-export'))
 
 
 def replay(ctx, rp):
